@@ -485,6 +485,37 @@ func analyse(fn *ast.FuncDecl) *ctx {
 		})
 		return defs
 	}
+	// a name defined in a goroutine body and used by a go literal nested in that body (without being redefined there) is not
+	// private to the goroutine: it is shared with the goroutines it starts
+	escapes := map[*ast.FuncLit]map[string]bool{}
+	var findEscapes func(lit *ast.FuncLit)
+	findEscapes = func(lit *ast.FuncLit) {
+		defs := defsIn(lit.Body)
+		esc := map[string]bool{}
+		ast.Inspect(lit.Body, func(m ast.Node) bool {
+			if gs, ok := m.(*ast.GoStmt); ok {
+				if inner, ok := gs.Call.Fun.(*ast.FuncLit); ok {
+					innerDefs := defsIn(inner.Body)
+					for _, f := range inner.Type.Params.List {
+						for _, pn := range f.Names {
+							innerDefs[pn.Name] = true
+						}
+					}
+					ast.Inspect(inner.Body, func(x ast.Node) bool {
+						if id, ok := x.(*ast.Ident); ok && defs[id.Name] && !innerDefs[id.Name] {
+							esc[id.Name] = true
+						}
+						return true
+					})
+					findEscapes(inner)
+					return false
+				}
+			}
+			return true
+		})
+		escapes[lit] = esc
+	}
+	litOf := map[int]*ast.FuncLit{}
 	var walk func(n ast.Node, g int)
 	walk = func(n ast.Node, g int) {
 		ast.Inspect(n, func(m ast.Node) bool {
@@ -494,7 +525,14 @@ func analyse(fn *ast.FuncDecl) *ctx {
 				id := goID
 				c.goIDs[t] = id
 				if lit, ok := t.Call.Fun.(*ast.FuncLit); ok {
+					if _, done := escapes[lit]; !done {
+						findEscapes(lit)
+					}
+					litOf[id] = lit
 					c.local[id] = defsIn(lit.Body)
+					for name := range escapes[lit] {
+						delete(c.local[id], name)
+					}
 					for _, f := range lit.Type.Params.List {
 						for _, pn := range f.Names {
 							c.local[id][pn.Name] = true
